@@ -29,6 +29,7 @@ type c09Case struct {
 	Queue    string // "default" | "none"
 	Root     bool   // the only handler is registered on the empty pattern (the service's own name)
 	Mixed    string // "res": resources explicit, access left nil (defaulted by the handler kinds); "acc": the reverse
+	Nested   bool   // the only handler sits in a sub mux that is routed onto a mux which is itself already mounted
 }
 
 func (c c09Case) String() string {
@@ -90,9 +91,13 @@ func c09Run(c c09Case) (o c09Obs, problems []string) {
 		if k&16 != 0 {
 			opts = append(opts, res.Access(res.AccessGranted))
 		}
-		if c.Root {
+		switch {
+		case c.Root:
 			s.Handle("", opts...)
-		} else {
+		case c.Nested:
+			x := s.Route("x", nil)
+			x.Route("y", func(m *res.Mux) { m.Handle("a", opts...) })
+		default:
 			s.Handle("a", opts...)
 		}
 		switch {
@@ -118,6 +123,10 @@ func c09Run(c c09Case) (o c09Obs, problems []string) {
 			return
 		}
 		vsched.AwaitQuiescence()
+		if c.Unset {
+			// "nil (default)": documented as the default ownership, also when set again on the running service
+			s.SetOwnedResources(nil, nil)
+		}
 		s.ResetAll()
 		res.VerifHandleReconnect(s)
 		vsched.AwaitQuiescence()
@@ -374,6 +383,7 @@ func runC09(c *seqCtx) {
 				if name != "" {
 					run(c09Case{Name: name, Unset: true, Kinds: k, Queue: q, Root: true})
 				}
+				run(c09Case{Name: name, Unset: true, Kinds: k, Queue: q, Nested: true})
 			}
 			for _, l := range lists {
 				if len(l) == 0 {
